@@ -110,7 +110,10 @@ def run_one(ch, env):
     io_mode = needs_dir and getattr(stage, "io_faults", True) and ch.draw(2, kind="fault_kind") == 1
     k = ch.draw(n_items, kind="fail_at")
     err = stages.ERROR_KINDS[ch.draw(len(stages.ERROR_KINDS), kind="error_kind")]
-    res["config"].update(fail_at=k, fault="io" if io_mode else "callback", error=err.__name__)
+    fail_after = (0.0, 0.0, 0.7, 3.0, 25.0)[ch.draw(5, kind="fail_after")]
+    res["config"].update(fail_at=k, fault="io" if io_mode else "callback", error=err.__name__, fail_after_s=fail_after)
+    if fail_after:
+        res["extra"]["late_failure"] = 1
     res["extra"]["error_" + err.__name__] = 1
 
     # serial control: must raise
@@ -145,7 +148,7 @@ def run_one(ch, env):
         rec = stages.Recorder(sim, nyield)
         sim.io_fault = IoFault(sim, k)
     else:
-        rec = stages.Recorder(sim, nyield, fail_at=k, error_cls=err)
+        rec = stages.Recorder(sim, nyield, fail_at=k, error_cls=err, fail_after=fail_after)
 
     def main():
         stage.run(workers, rec, d)
